@@ -32,37 +32,42 @@ func requireResetBeforeDecode(c *Ctx, rule string, fn *ssa.Function, holder *typ
 	p := c.P
 	st := msg.Underlying().(*types.Struct)
 	n := 0
-	for _, cs := range CallsIn(fn) {
-		call, ok := cs.(*ssa.Call)
-		if !ok {
-			continue
-		}
-		o := CalleeObj(&call.Call)
-		if o == nil || !strings.HasPrefix(o.Name(), "Unmarshal") || len(call.Call.Args) == 0 {
-			continue
-		}
-		if !IsLoadOfField(call.Call.Args[0], holder) {
-			continue
-		}
-		n++
-		for i := 0; i < st.NumFields(); i++ {
-			f := st.Field(i)
-			if !f.Exported() {
+	top := fn
+	// (reset and decode may have been moved together into a function new since the snapshot)
+	for _, fn := range regionFuncs(top) {
+		for _, cs := range CallsIn(fn) {
+			call, ok := cs.(*ssa.Call)
+			if !ok {
 				continue
 			}
-			isReset := func(in ssa.Instruction) bool {
-				s, ok := in.(*ssa.Store)
-				if !ok {
-					return false
-				}
-				fa, ok := s.Addr.(*ssa.FieldAddr)
-				return ok && FieldOf(fa) == f && IsLoadOfField(fa.X, holder)
+			o := CalleeObj(&call.Call)
+			if o == nil || !strings.HasPrefix(o.Name(), "Unmarshal") || len(call.Call.Args) == 0 {
+				continue
 			}
-			r := Reach(fn, ReachOpts{Cut: isReset})
-			c.Check(!r.Reachable(call), rule, FuncName(fn)+"|reset "+msg.Obj().Name()+"."+f.Name()+" before decode into reused "+holder.Name(), p.Pos(InstrPos(call)),
-				"field "+f.Name()+" of the reused decode target is reset on every path before UnmarshalVT (an absent field would otherwise keep the previous message's value)")
+			if !IsLoadOfField(call.Call.Args[0], holder) {
+				continue
+			}
+			n++
+			for i := 0; i < st.NumFields(); i++ {
+				f := st.Field(i)
+				if !f.Exported() {
+					continue
+				}
+				isReset := func(in ssa.Instruction) bool {
+					s, ok := in.(*ssa.Store)
+					if !ok {
+						return false
+					}
+					fa, ok := s.Addr.(*ssa.FieldAddr)
+					return ok && FieldOf(fa) == f && IsLoadOfField(fa.X, holder)
+				}
+				r := Reach(fn, ReachOpts{Cut: isReset})
+				c.Check(!r.Reachable(call), rule, FuncName(fn)+"|reset "+msg.Obj().Name()+"."+f.Name()+" before decode into reused "+holder.Name(), p.Pos(InstrPos(call)),
+					"field "+f.Name()+" of the reused decode target is reset on every path before UnmarshalVT (an absent field would otherwise keep the previous message's value)")
+			}
 		}
 	}
+	fn = top
 	if n == 0 {
 		c.Violate(rule, FuncName(fn)+"|decode into reused "+holder.Name(), p.Pos(fn.Pos()), "no decode into the reused message found (rule table out of date)")
 	}
